@@ -1,7 +1,453 @@
-//! C26 — not implemented yet.
-use vcore::Ctx;
+//! C26 — presentation-only build options never change behaviour.
+//!
+//! Inputs: corpus files that analyse cleanly on their own, and `vdesign`
+//! designs with injected comments.  Each case emits the file under the
+//! default options and under a drawn variant of {strip_comments,
+//! newline_style, indent_width, max_width, vertical_align,
+//! expand_inside_operation} (every emission is its own analysis on its own
+//! thread, like separate `veryl build` runs).
+//!
+//! * strip_comments ⇒ same SV code-token stream, no comment token left;
+//!   without it the comment tokens are unchanged too;
+//! * newline_style ⇒ byte-identical after normalising line endings;
+//! * widths / alignment ⇒ same SV token stream;
+//! * expand_inside_operation ⇒ the token streams differ only in hunks that
+//!   contain `inside` on the unexpanded side, and (designs) the vsv traces of
+//!   the two texts are equal.
 
-pub fn run(_ctx: &Ctx) {
-    println!("INCONCLUSIVE property=C26: check not implemented");
-    std::process::exit(2);
+use crate::c01;
+use crate::common::{self, BuildErr};
+use serde_json::json;
+use std::collections::BTreeMap;
+use vcore::{CaseCfg, Ctx, Draw, Outcome, hash_str};
+use vdesign::{GenCfg, gen_design, gen_stimulus, print_design};
+use veryl_metadata::{Metadata, NewlineStyle};
+use vsv::lex::{Tk, Token, lex};
+use vsv::{Pins, Sim};
+
+#[derive(Clone, Debug, PartialEq, Eq)]
+pub struct Opts {
+    pub strip_comments: bool,
+    /// 0 auto, 1 unix, 2 windows
+    pub newline: u8,
+    pub indent_width: usize,
+    pub max_width: usize,
+    pub vertical_align: bool,
+    pub expand_inside: bool,
+}
+
+impl Default for Opts {
+    fn default() -> Self {
+        Opts {
+            strip_comments: false,
+            newline: 0,
+            indent_width: 4,
+            max_width: 120,
+            vertical_align: true,
+            expand_inside: false,
+        }
+    }
+}
+
+impl Opts {
+    pub fn draw(d: &mut Draw) -> Opts {
+        Opts {
+            strip_comments: d.bool(),
+            newline: d.weighted(&[2, 1, 2]) as u8,
+            indent_width: *d.pick(&[4usize, 2, 1, 3, 8, 0]),
+            max_width: *d.pick(&[120usize, 80, 40, 20, 1, 400]),
+            vertical_align: !d.chance(1, 3),
+            expand_inside: d.bool(),
+        }
+    }
+    pub fn apply(&self, md: &mut Metadata) {
+        md.build.strip_comments = self.strip_comments;
+        md.build.expand_inside_operation = self.expand_inside;
+        md.format.indent_width = self.indent_width;
+        md.format.max_width = self.max_width;
+        md.format.vertical_align = self.vertical_align;
+        md.format.newline_style = match self.newline {
+            0 => NewlineStyle::Auto,
+            1 => NewlineStyle::Unix,
+            _ => NewlineStyle::Windows,
+        };
+    }
+    pub fn describe(&self) -> String {
+        format!(
+            "strip_comments={} newline_style={} indent_width={} max_width={} vertical_align={} expand_inside_operation={}",
+            self.strip_comments,
+            ["auto", "unix", "windows"][self.newline as usize],
+            self.indent_width,
+            self.max_width,
+            self.vertical_align,
+            self.expand_inside
+        )
+    }
+}
+
+/// One `veryl build` of one file under `opts`, on its own thread.
+fn emit_with(text: &str, opts: &Opts) -> Result<String, BuildErr> {
+    let r = std::thread::scope(|s| {
+        std::thread::Builder::new()
+            .stack_size(16 << 20)
+            .spawn_scoped(s, || {
+                let mut md = common::project_metadata();
+                opts.apply(&mut md);
+                common::build(text, &md).map(|b| b.sv)
+            })
+            .expect("spawn")
+            .join()
+    });
+    match r {
+        Ok(x) => x,
+        Err(p) => std::panic::resume_unwind(p),
+    }
+}
+
+fn norm_nl(s: &str) -> String {
+    s.replace("\r\n", "\n")
+}
+
+fn code<'a>(t: &'a [Token]) -> Vec<&'a str> {
+    t.iter().filter(|t| !t.is_comment()).map(|t| t.text.as_str()).collect()
+}
+
+fn comments(t: &[Token]) -> Vec<String> {
+    t.iter()
+        .filter(|t| t.is_comment())
+        // the source-map trailer names no source construct
+        .filter(|t| !t.text.starts_with("//# sourceMappingURL"))
+        .map(|t| norm_nl(&t.text).lines().map(|l| l.trim()).collect::<Vec<_>>().join("\n"))
+        .collect()
+}
+
+/// Differing hunks (lists of tokens on each side) of two token sequences,
+/// by longest common subsequence after trimming the common ends.
+fn hunks<'a>(a: &[&'a str], b: &[&'a str]) -> Option<Vec<(Vec<&'a str>, Vec<&'a str>)>> {
+    let mut p = 0;
+    while p < a.len() && p < b.len() && a[p] == b[p] {
+        p += 1;
+    }
+    let mut s = 0;
+    while s < a.len() - p && s < b.len() - p && a[a.len() - 1 - s] == b[b.len() - 1 - s] {
+        s += 1;
+    }
+    let a = &a[p..a.len() - s];
+    let b = &b[p..b.len() - s];
+    if a.len() * b.len() > 60_000_000 {
+        return None;
+    }
+    let (n, m) = (a.len(), b.len());
+    let mut t = vec![0u32; (n + 1) * (m + 1)];
+    for i in (0..n).rev() {
+        for j in (0..m).rev() {
+            t[i * (m + 1) + j] = if a[i] == b[j] { t[(i + 1) * (m + 1) + j + 1] + 1 } else { t[(i + 1) * (m + 1) + j].max(t[i * (m + 1) + j + 1]) };
+        }
+    }
+    let mut out = vec![];
+    let (mut i, mut j) = (0, 0);
+    let mut cur: (Vec<&str>, Vec<&str>) = (vec![], vec![]);
+    while i < n || j < m {
+        if i < n && j < m && a[i] == b[j] {
+            if !cur.0.is_empty() || !cur.1.is_empty() {
+                out.push(std::mem::take(&mut cur));
+            }
+            i += 1;
+            j += 1;
+        } else if j < m && (i == n || t[i * (m + 1) + j + 1] >= t[(i + 1) * (m + 1) + j]) {
+            cur.1.push(b[j]);
+            j += 1;
+        } else {
+            cur.0.push(a[i]);
+            i += 1;
+        }
+    }
+    if !cur.0.is_empty() || !cur.1.is_empty() {
+        out.push(cur);
+    }
+    Some(out)
+}
+
+pub struct Verdict {
+    pub classes: Vec<String>,
+    pub has_comments: bool,
+    pub has_inside: bool,
+    pub base_sv: String,
+    pub var_sv: String,
+}
+
+/// All textual oracles for one source text and one variant.
+pub fn judge(text: &str, var: &Opts) -> Result<Result<Verdict, (String, String, serde_json::Value)>, String> {
+    let base = Opts::default();
+    let e0 = match emit_with(text, &base) {
+        Ok(s) => s,
+        Err(BuildErr::Parse(_)) => return Err("source does not parse".into()),
+        Err(BuildErr::Analyze(e)) => {
+            return Err(format!("source does not analyse cleanly on its own: {}", e.first().map(|s| s.split_whitespace().take(3).collect::<Vec<_>>().join(" ")).unwrap_or_default()));
+        }
+    };
+    let fail = |sig: &str, msg: String, a: &str, b: &str| {
+        Ok(Err((
+            sig.to_string(),
+            msg,
+            json!({"veryl": text, "variant": var.describe(), "sv_default": a, "sv_variant": b}),
+        )))
+    };
+    let e2 = match emit_with(text, var) {
+        Ok(s) => s,
+        Err(e) => return fail("variant-rejected", format!("the same source is rejected under {}: {e:?}", var.describe()), &e0, ""),
+    };
+    let mut classes = vec![];
+    // ---- newline_style: the same variant with Unix newlines
+    if var.newline != 1 {
+        let mut v1 = var.clone();
+        v1.newline = 1;
+        let e1 = match emit_with(text, &v1) {
+            Ok(s) => s,
+            Err(e) => return fail("variant-rejected", format!("rejected under {}: {e:?}", v1.describe()), &e0, ""),
+        };
+        if norm_nl(&e1) != norm_nl(&e2) {
+            return fail(
+                "newline-style/content-changed",
+                format!("newline_style={} changes more than line endings ({})", ["auto", "unix", "windows"][var.newline as usize], var.describe()),
+                &e1,
+                &e2,
+            );
+        }
+        classes.push(format!("newline:{}", ["auto", "unix", "windows"][var.newline as usize]));
+        if var.newline == 2 {
+            // every line ending is CRLF
+            let bare = e2.as_bytes().iter().enumerate().filter(|(i, c)| **c == b'\n' && (*i == 0 || e2.as_bytes()[*i - 1] != b'\r')).count();
+            if bare > 0 && !text.contains('\r') {
+                return fail("newline-style/mixed", format!("newline_style=windows leaves {bare} bare line feeds"), &e1, &e2);
+            }
+        }
+    }
+    // ---- token streams
+    let t0 = match lex(&e0) {
+        Ok(t) => t,
+        Err(u) => return Err(format!("vsv lexer: {}", u.class())),
+    };
+    let t2 = match lex(&e2) {
+        Ok(t) => t,
+        Err(u) => {
+            return fail("variant-not-lexable", format!("the variant text is not lexable SystemVerilog ({u}) while the default one is"), &e0, &e2);
+        }
+    };
+    let (c0, c2) = (code(&t0), code(&t2));
+    let has_inside = c0.iter().any(|t| *t == "inside");
+    let has_comments = !comments(&t0).is_empty();
+    if var.expand_inside != base.expand_inside {
+        classes.push("expand_inside".into());
+        match hunks(&c0, &c2) {
+            None => classes.push("expand_diff_too_large".into()),
+            Some(hs) => {
+                for (a, b) in &hs {
+                    if !a.iter().any(|t| *t == "inside") {
+                        return fail(
+                            "expand-inside/other-change",
+                            format!("expand_inside_operation changes tokens where no `inside` stands: `{}` became `{}`", a.join(" "), b.join(" ")),
+                            &e0,
+                            &e2,
+                        );
+                    }
+                }
+                if !hs.is_empty() {
+                    classes.push("expand_inside_rewrote".into());
+                }
+                if c2.iter().any(|t| *t == "inside") {
+                    return fail("expand-inside/left-over", "expand_inside_operation leaves an `inside` operator in the text".into(), &e0, &e2);
+                }
+            }
+        }
+    } else if c0 != c2 {
+        let hs = hunks(&c0, &c2).unwrap_or_default();
+        let (a, b) = hs.first().cloned().unwrap_or_default();
+        let which = if var.strip_comments { "strip-comments" } else { "layout" };
+        return fail(
+            &format!("{which}/token-stream-changed"),
+            format!("under {} the code tokens `{}` became `{}`", var.describe(), a.join(" "), b.join(" ")),
+            &e0,
+            &e2,
+        );
+    }
+    // ---- comments
+    let (m0, m2) = (comments(&t0), comments(&t2));
+    if var.strip_comments {
+        classes.push("strip_comments".into());
+        if !m2.is_empty() {
+            return fail("strip-comments/comment-left", format!("strip_comments leaves a comment: {:?}", m2[0]), &e0, &e2);
+        }
+    } else if m0 != m2 {
+        let k = m0.iter().zip(&m2).position(|(a, b)| a != b).unwrap_or(m0.len().min(m2.len()));
+        return fail(
+            "layout/comments-changed",
+            format!("under {} comment #{k} changed: {:?} vs {:?}", var.describe(), m0.get(k), m2.get(k)),
+            &e0,
+            &e2,
+        );
+    }
+    if var.indent_width != base.indent_width {
+        classes.push(format!("indent:{}", var.indent_width));
+    }
+    if var.max_width != base.max_width {
+        classes.push(format!("max_width:{}", var.max_width));
+    }
+    if !var.vertical_align {
+        classes.push("no_vertical_align".into());
+    }
+    let _ = Tk::Ident;
+    Ok(Ok(Verdict {
+        classes,
+        has_comments,
+        has_inside,
+        base_sv: e0,
+        var_sv: e2,
+    }))
+}
+
+/// Append / insert comments at line granularity (the printer puts one item or
+/// statement per line, so both places are between tokens).
+fn inject_comments(d: &mut Draw, text: &str) -> String {
+    let mut out = String::new();
+    for (i, line) in text.lines().enumerate() {
+        if d.chance(1, 6) {
+            let ind: String = line.chars().take_while(|c| c.is_whitespace()).collect();
+            match d.below(3) {
+                0 => out.push_str(&format!("{ind}// note {i}\n")),
+                1 => out.push_str(&format!("{ind}/* block {i} */\n")),
+                _ => out.push_str(&format!("{ind}/* two\n{ind}   lines {i} */\n")),
+            }
+        }
+        out.push_str(line);
+        if d.chance(1, 8) {
+            out.push_str(&format!(" // tail {i}"));
+        }
+        out.push('\n');
+    }
+    out
+}
+
+fn design_case(d: &mut Draw, cfg: &GenCfg, cycles: usize) -> Outcome {
+    let g = gen_design(d, cfg);
+    let mut text = inject_comments(d, &print_design(&g.design));
+    let crlf = d.chance(1, 5);
+    if crlf {
+        text = text.replace('\n', "\r\n");
+    }
+    let var = Opts::draw(d);
+    if var == Opts::default() {
+        return Outcome::skip("variant equals the default options");
+    }
+    let stim = gen_stimulus(d, &g.design, cycles);
+    let v = match judge(&text, &var) {
+        Err(why) => return Outcome::skip(why),
+        Ok(Err((sig, msg, input))) => return Outcome::fail(sig, msg, input),
+        Ok(Ok(v)) => v,
+    };
+    let mut classes = v.classes.clone();
+    classes.push("input:design".into());
+    if crlf {
+        classes.push("source_crlf".into());
+    }
+    // ---- behaviour: expanded and unexpanded text under vsv
+    if var.expand_inside && v.has_inside {
+        let pins = Pins {
+            clock: stim.clock.clone().map(|c| (c, true)),
+            reset: stim.reset.clone().map(|r| (r, false)),
+        };
+        let run = |sv: &str| -> Result<Vec<Vec<vsv::Bv>>, vsv::Unsupported> {
+            let mut sim = Sim::from_sv(&[sv], "prj_Top")?;
+            c01::run_sv(&mut sim, &pins, &stim)
+        };
+        match (run(&v.base_sv), run(&v.var_sv)) {
+            (Ok(a), Ok(b)) => {
+                classes.push("expand_inside_simulated".into());
+                for (si, (ra, rb)) in a.iter().zip(&b).enumerate() {
+                    for (oi, (x, y)) in ra.iter().zip(rb).enumerate() {
+                        if x != y {
+                            if x.has_xz() || y.has_xz() {
+                                classes.push("expand_inside_x_involved".into());
+                                continue;
+                            }
+                            return Outcome::fail(
+                                "expand-inside/behaviour",
+                                format!("output {} after step {si}: {} with `inside`, {} with the expansion", stim.outputs[oi].name, x, y),
+                                json!({"veryl": text, "variant": var.describe(), "sv_default": v.base_sv, "sv_variant": v.var_sv,
+                                       "stimulus": stim.steps.iter().map(|s| json!({"reset": s.reset, "inputs": s.values.iter().map(|v| format!("{v:x}")).collect::<Vec<_>>()})).collect::<Vec<_>>()}),
+                            );
+                        }
+                    }
+                }
+            }
+            (Err(u), _) | (_, Err(u)) => classes.push(format!("vsv_unsupported:{}", u.class())),
+        }
+    }
+    classes.sort();
+    classes.dedup();
+    let nontrivial = v.has_comments && v.has_inside;
+    let sample = format!("// {}\n{}", var.describe(), text);
+    Outcome::pass(hash_str(&sample), nontrivial, classes, sample)
+}
+
+fn corpus_case(d: &mut Draw, files: &[(String, String)]) -> Outcome {
+    let (name, text) = &files[d.below_usize(files.len())];
+    let var = Opts::draw(d);
+    if var == Opts::default() {
+        return Outcome::skip("variant equals the default options");
+    }
+    match judge(text, &var) {
+        Err(why) => Outcome::skip(why),
+        Ok(Err((sig, msg, mut input))) => {
+            input["file"] = json!(name);
+            Outcome::fail(sig, format!("{name}: {msg}"), input)
+        }
+        Ok(Ok(v)) => {
+            let mut classes = v.classes.clone();
+            classes.push("input:corpus".into());
+            classes.sort();
+            classes.dedup();
+            let key = hash_str(&format!("{name} {}", var.describe()));
+            Outcome::pass(key, v.has_comments, classes, format!("{name}: {}", var.describe()))
+        }
+    }
+}
+
+pub fn run(ctx: &Ctx) {
+    // corpus files that analyse cleanly on their own (each on a fresh thread)
+    let mut files: Vec<(String, String)> = vec![];
+    let mut rejected: BTreeMap<String, u64> = BTreeMap::new();
+    for f in vcore::util::corpus_files() {
+        let Ok(text) = std::fs::read_to_string(&f) else { continue };
+        let name = f.file_name().map(|s| s.to_string_lossy().to_string()).unwrap_or_default();
+        if !f.to_string_lossy().contains("testcases/veryl") {
+            continue;
+        }
+        match emit_with(&text, &Opts::default()) {
+            Ok(_) => files.push((name, text)),
+            Err(BuildErr::Parse(_)) => *rejected.entry("parse".into()).or_default() += 1,
+            Err(BuildErr::Analyze(_)) => *rejected.entry("needs other files".into()).or_default() += 1,
+        }
+    }
+    ctx.note("corpus_files_usable", json!(files.len()));
+    ctx.note("corpus_files_rejected", json!(rejected));
+    let n_corpus = ctx.scale(250, 8000);
+    let n_design = ctx.scale(250, 12_000);
+    if !files.is_empty() {
+        let files = std::sync::Arc::new(files);
+        ctx.run("corpus", CaseCfg::cases(n_corpus).choices(64).stack_mb(16), move |d: &mut Draw| corpus_case(d, &files));
+    }
+    let cfg = GenCfg {
+        max_width: 64,
+        unguarded_per_mille: 0,
+        ..GenCfg::default()
+    };
+    let cycles = if ctx.is_quick() { 16 } else { 60 };
+    ctx.run("design", CaseCfg::cases(n_design).choices(14_000).stack_mb(16), move |d: &mut Draw| design_case(d, &cfg, cycles));
+    ctx.assume("every emission is a separate analysis + emission on its own thread, as separate `veryl build` runs would be");
+    ctx.assume("behaviour of expanded vs unexpanded `inside` is compared with vsv (no external SystemVerilog simulator in the sandbox)");
+    ctx.finish(
+        "exploration",
+        "corpus files that analyse on their own and vdesign designs with injected comments x drawn option variants; non-trivial = the source has comments (and, for designs, an `inside`)",
+    );
 }
